@@ -92,6 +92,10 @@ func valueOf(r *rand.Rand, enc string, run int, salt uint64) []byte {
 		return b
 	case "raw":
 		l := int(x>>60) % 5
+		if salt&1 == 1 {
+			// every non-empty value has the same width, some values are empty
+			l = 2 * (int(x>>60) % 2)
+		}
 		b := make([]byte, l)
 		for i := 0; i < l; i++ {
 			b[i] = byte(x >> uint(8*i))
